@@ -86,8 +86,8 @@ PLANS = {
         'level': 'model_checking', 'rule': RULE_HIST + '; the rotate pick and the probe coin are enumerated through the random tape; reference health table driven only by the public server-state callback stream', 'assumptions': ASSUME, 'targets': T,
         'deadline': {'quick': 420, 'thorough': 2400},
         'jobs': [
-            job('failover', 'failover', 'C09', {'quick': 5, 'thorough': 5}, 1,
-                wit=['c09_selection_checked', 'c09_failed_over', 'c09_probe_seen', 'c09_rotate_choice', 'policy_alternatives']),
+            job('failover', 'failover', 'C09', {'quick': 4, 'thorough': 5}, 1,
+                wit=['c09_selection_checked', 'c09_network_view_checked', 'c09_failed_over', 'c09_probe_seen', 'c09_rotate_choice', 'policy_alternatives', 'tx_tcp']),
         ],
     },
     'C12': {
